@@ -87,6 +87,36 @@ class MSeq:
             return Seg3(seg.n, guard, item, (node.lineno, node.col_offset, seg.tag))
 
         segs = [mk(s) for s in self.segments]
+        if kind == "dict":
+            # the keys must be the items' own identities (the elements): a key derived from an item - its
+            # name, say - may coincide for two items, and the later entry then replaces the earlier one
+            def key_is_item(seg0=self.segments[0] if self.segments else None):
+                if seg0 is None:
+                    return True
+                from .summary import summarise as _sum
+                from .values import LocalObj, ObjRef
+
+                J = cur().fresh_index(seg0.n, "key")
+                ok = []
+
+                def probe():
+                    g_ = seg0.guard(J)
+                    if g_ is False:
+                        return True
+                    if g_ is not True and not cur().decide(T.lift(g_), "item present"):
+                        return True
+                    it0 = seg0.item(J)
+                    e2 = _child_env(interp, env)
+                    e2.vars.update(snapshot)
+                    interp.assign(g.target, it0, e2)
+                    k0 = interp.eval(node.key, e2)
+                    parts = it0 if isinstance(it0, tuple) else (it0,)
+                    return isinstance(k0, (LocalObj, ObjRef)) and any(k0 is p for p in parts)
+
+                return all(p.kind == "ok" and p.value for p in _sum(probe))
+
+            cur().oblige("post", f"the dict built at line {node.lineno} is keyed by the elements themselves (a key such as the element's name is not unique: entries of same-named elements would replace each other)",
+                         T.const(bool(key_is_item())), assume_after=False)
         return MDict(segs, f"comp@{node.lineno}") if kind == "dict" else MSeq(segs, f"comp@{node.lineno}")
 
     def pyvc_iter(self, interp):
